@@ -347,3 +347,57 @@ impl<T: Sc> DynModel<T> for RowsDeleted<T> {
         Box::new(RowsDeleted { inner: self.inner.clone(), keep: self.keep.clone() })
     }
 }
+
+/// Replaces one element of the basis matrix (`deriv == None`) or of one derivative matrix by a
+/// fixed value: lets the enumerator put IEEE special values directly into Phi or dPhi/dalpha_k.
+#[derive(Clone)]
+pub struct Tamper<T: Sc> {
+    pub inner: BM<T>,
+    pub deriv: Option<usize>,
+    pub i: usize,
+    pub j: usize,
+    pub value: T,
+}
+impl<T: Sc> Tamper<T> {
+    pub fn wrap(inner: BM<T>, deriv: Option<usize>, i: usize, j: usize, value: T) -> BM<T> {
+        BM(Box::new(Tamper { inner, deriv, i, j, value }))
+    }
+}
+impl<T: Sc> SeparableNonlinearModel for Tamper<T> {
+    type ScalarType = T;
+    type Error = MErr;
+    fn parameter_count(&self) -> usize {
+        self.inner.parameter_count()
+    }
+    fn base_function_count(&self) -> usize {
+        self.inner.base_function_count()
+    }
+    fn output_len(&self) -> usize {
+        self.inner.output_len()
+    }
+    fn set_params(&mut self, p: OVector<T, Dyn>) -> Result<(), MErr> {
+        self.inner.set_params(p)
+    }
+    fn params(&self) -> OVector<T, Dyn> {
+        self.inner.params()
+    }
+    fn eval(&self) -> Result<OMatrix<T, Dyn, Dyn>, MErr> {
+        let mut m = self.inner.eval()?;
+        if self.deriv.is_none() && self.i < m.nrows() && self.j < m.ncols() {
+            m[(self.i, self.j)] = self.value;
+        }
+        Ok(m)
+    }
+    fn eval_partial_deriv(&self, k: usize) -> Result<OMatrix<T, Dyn, Dyn>, MErr> {
+        let mut m = self.inner.eval_partial_deriv(k)?;
+        if self.deriv == Some(k) && self.i < m.nrows() && self.j < m.ncols() {
+            m[(self.i, self.j)] = self.value;
+        }
+        Ok(m)
+    }
+}
+impl<T: Sc> DynModel<T> for Tamper<T> {
+    fn clone_box(&self) -> Box<dyn DynModel<T>> {
+        Box::new(self.clone())
+    }
+}
